@@ -1,5 +1,11 @@
 # data for tools_manifest.py
 CHECKS = {}
+CHECKS['C03'] = dict(
+    technique='static analysis: grammar-docstring extraction, NoIn/NoBF family image lint, sibling-action cross-check by abstract interpretation, LALR conflict audit (ply as library), definition/production skeleton alignment; thorough adds Earley cross-membership against an embedded ES5.1 grammar',
+    text='Decides the CFG layer of C03: every production/action pair is enumerated (340 productions, ~350 action paths); obligations are exhaustive over the finite tables. Not a proof of language equality with ECMA-262; character-level acceptance is C04-C06.',
+    ref='DESIGN.md section 3 C03',
+    note='Trusted: CPython ast, transcription of ply.yacc.parse_grammar, ply LALR construction used as a library on extracted (lhs, rhs) tuples, embedded ES5.1 reference facts. Analyses /repo/src text only.')
+
 NA = {
  'C09': 'every clause is arithmetic over running delta accumulators along an unbounded fragment stream; no structural necessary condition in reach of static analysis beyond what a unit test asserts (DESIGN.md section 5)',
  'C17': 'compares two code paths of ply over build products (lextab/yacctab modules) that do not exist in the working tree; the repository contributes only argument plumbing (DESIGN.md section 5)',
